@@ -516,44 +516,55 @@ func c08(c *Ctx) {
 			es := exprString(st.Val, 0)
 			r.Check("timer:count", strings.Contains(es, "round(timer.SampledCount)"), st.Pos(), "Count = int(round(timer.SampledCount)): "+es)
 		}
+		// the divisor: float64(flushInterval) / float64(time.Second), possibly kept in a local
+		isIntervalSeconds := func(v ssa.Value) bool {
+			b := asBinOp(ptrOrigin(v), token.QUO)
+			if b == nil || paramIndex(fl, stripConv(ptrOrigin(b.X))) != 1 {
+				return false
+			}
+			if n, isC := constInt(stripConv(b.Y)); isC && n == 1000000000 {
+				return true
+			}
+			k, isC := b.Y.(*ssa.Const)
+			return isC && k.Value != nil && (k.Value.ExactString() == "1000000000" || k.Value.String() == "1e+09")
+		}
 		for _, st := range fieldStores(ft, "Timer", "PerSecond") {
 			if _, isC := st.Val.(*ssa.Const); isC {
 				continue
 			}
 			b := asBinOp(st.Val, token.QUO)
-			r.Check("timer:per-second", b != nil && strings.HasSuffix(pathOf(b.X), "timer.SampledCount") && valueName(b.Y) == "flushInSeconds", st.Pos(), "PerSecond = SampledCount / flushInSeconds")
+			r.Check("timer:per-second", b != nil && strings.HasSuffix(pathOf(b.X), ".SampledCount") && isIntervalSeconds(b.Y), st.Pos(), "PerSecond = SampledCount / flushInSeconds")
 		}
 		fc := eachClosures(fl)["Counters"]
 		if fc != nil {
 			for _, st := range fieldStores(fc, "Counter", "PerSecond") {
 				b := asBinOp(st.Val, token.QUO)
-				r.Check("counter:per-second", b != nil && strings.Contains(pathOf(b.X), "counter.Value") && valueName(b.Y) == "flushInSeconds", st.Pos(), "PerSecond = float64(Value) / flushInSeconds")
+				r.Check("counter:per-second", b != nil && strings.HasSuffix(strings.TrimSuffix(pathOf(b.X), ")"), ".Value") && isIntervalSeconds(b.Y), st.Pos(), "PerSecond = float64(Value) / flushInSeconds")
 			}
 		}
 		// flushInSeconds = float64(interval) / float64(time.Second)
 		okFS := false
-		for _, st := range storesIn(fl) {
-			if valueName(st.Addr) == "flushInSeconds" {
-				if b := asBinOp(st.Val, token.QUO); b != nil && paramIndex(fl, stripConv(b.X)) == 1 {
-					if n, isC := constInt(stripConv(b.Y)); isC && n == 1000000000 {
-						okFS = true
-					}
-					if k, isC := b.Y.(*ssa.Const); isC && k.Value != nil && (k.Value.ExactString() == "1000000000" || k.Value.String() == "1e+09") {
-						okFS = true
-					}
+		for _, f := range WithAnon(fl) {
+			eachInstr(f, func(in ssa.Instruction) {
+				if v, ok := in.(ssa.Value); ok && asBinOp(v, token.QUO) != nil && isIntervalSeconds(v) {
+					okFS = true
 				}
-			}
+			})
 		}
 		r.Check("interval-seconds", okFS, fl.Pos(), "flushInSeconds = float64(flushInterval) / float64(time.Second)")
 		// sort before use
 		var srt ssa.Instruction
-		for _, cl := range callsTo(ft, "sort.Float64s") {
-			srt = cl
+		for _, cl := range callsIn(ft) {
+			// sort.Float64s, slices.Sort (what sort.Float64s is implemented with) or sort.Sort(sort.Float64Slice(..)) on the values
+			n := calleeName(cl)
+			if (n == "sort.Float64s" || strings.HasPrefix(n, "slices.Sort[") || n == "slices.Sort") && len(cl.Common().Args) == 1 && strings.HasSuffix(pathOf(cl.Common().Args[0]), ".Values") {
+				srt = cl
+			}
 		}
 		okSort := srt != nil
 		if srt != nil {
 			eachInstr(ft, func(in ssa.Instruction) {
-				if ia, ok := in.(*ssa.IndexAddr); ok && strings.HasSuffix(pathOf(ia.X), "timer.Values") {
+				if ia, ok := in.(*ssa.IndexAddr); ok && strings.HasSuffix(pathOf(ia.X), ".Values") && strings.Contains(ia.X.Type().String(), "float64") {
 					if !instrDominates(srt, ia) {
 						okSort = false
 					}
